@@ -1,40 +1,52 @@
-import JunoModel.C14.ProofsRun
-import JunoModel.C14.ProofsCodec
+import JunoModel.C14.ProofsMore
 /-!
 C14 — property theorems (statements only; helper lemmas are in `Proofs*.lean`).
 Every theorem in this module is an obligation listed in evidence/C14.json with its axioms.
 
 Vocabulary (all in `Model.lean`). A history is a list of `Op`: `set h e` (SetWALEntry),
-`del h` (DeleteWALEntries), `flush ft` / `close ft` (with an injected failure `ft`: none, the
-append fails and the tail repair succeeds, the repair fails too, `manager.Create` fails, the
-watermark write fails, the directory sync after the watermark rename fails, the rotation fails,
-the unlink of the k-th obsolete log fails),
-`reopen` (NewTendermintWALStore), `crash c i mask alt` (the process dies while operation `c` is at its
+`del h` (DeleteWALEntries), `flush ft` / `close ft` (with an injected failure `ft`: none; the
+append fails — write or fsync — and the tail repair succeeds; the repair fails too;
+`manager.Create` fails; the watermark write fails; the directory sync after the watermark rename
+fails; the rotation fails; the unlink of the k-th obsolete log fails), `reopen`
+(NewTendermintWALStore), `crash c i mask alt` (the process dies while operation `c` is at its
 `i`-th durable state; the unlinks chosen by `mask`, not yet made durable by a directory sync, are
-undone, and with `alt` an undurable watermark rename too). `Sys.init.run ops` is the state after the history: the store, the directory, and two
-ghost lists of API calls — `acked`: the calls followed by a flush that committed (or brought back
-by a recovery), `calls`: the calls since. `images c` are all crash images of the operation `c`
-started now, each with the flag "the batch in flight is completely on disk". `recover img` is
-LoadAllEntries after NewTendermintWALStore on that directory. `LoadSpec out A`: `out` is exactly
-what the property allows after the acknowledged calls `A` (heights above the highest
-acknowledged prune, each with all its acknowledged entries in call order; nothing else).
+undone; `alt` says how far watermark renames that no directory sync has made durable are undone).
+`Sys.init.run ops` is the state after the history: the store, the directory, and two ghost lists
+of API calls — `acked`: the calls followed by a flush that committed (with or without an error
+reported afterwards) or brought back by a recovery, `calls`: the calls since. `images c` are all
+crash images of the operation `c` started now, each with the flag "the batch in flight is
+completely on disk". `recover img` is LoadAllEntries after NewTendermintWALStore on that
+directory. `LoadSpec out A`: `out` is exactly what the property allows after the acknowledged calls
+`A` (heights above the highest acknowledged prune, each with all its acknowledged entries in call
+order; nothing else).
 
-Height 0 (DESIGN §7 L8): the watermark value 0 means both "nothing pruned" and "pruned up to
-0", so `maxPrune [] = 0` and height 0 always counts as pruned, in the code and in this
-statement alike (`height_zero_never_stored`). juno's consensus starts at height
-`chainHeight + 1 ≥ 1` (consensus/consensus.go:92), so no reachable history writes height 0.
+What the statements do NOT cover (assumptions, see checks/c14.json):
+* "every crash image" means every image of the OS model written down in `Model.lean`: a log tail
+  is either clean or "garbage" (anything after the last complete record that Pebble's reader
+  reports as an invalid tail); non-durable unlinks and watermark renames may be undone in any
+  combination. That a tail cut or damaged at an arbitrary byte offset *is* reported as an
+  invalid tail is Pebble's framing, tested by the harness, not proved.
+* Order: `LoadAllEntries` sorts by height, so "in their original order" can only mean call order
+  within a height; that is what `LoadSpec` says.
+* The caller does not write through the pointers of an entry after `SetWALEntry`
+  (`aliasing_breaks_exactness_before_fix`).
+* Failure points that are not in `Fault` (hence `…_partial` below): the tail repair failing
+  after a failed *rotation*; the directory sync failing inside `manager.Create`; `encodeBatch`
+  returning an error (impossible for `starknet.Value`, a `[4]uint64`); `wal.close()` /
+  `manager.Close()` failing inside `Close`; `manager.Obsolete` returning an error (it never does
+  in Pebble's standalone manager).
 -/
 namespace Juno.C14.Props
 open Juno.C14
 
 /-- **Recovery is exact.** After any history — operations, injected failures, earlier crashes
-and restarts — and for every crash image of whatever happens next (nothing, a flush, a close, a
-restart; with any failure injected; at every intermediate durable state of the append, the
-watermark write, the rotation and the removal of obsolete logs; with any subset of not yet
-durable unlinks undone): reopening succeeds, and LoadAllEntries yields exactly the acknowledged
-history — or, when the batch in flight had reached the disk completely, the acknowledged history
-followed by that whole batch. Never an error, never a partial batch, never a pruned height,
-never a lost entry. -/
+and restarts — and for every crash image (of the OS model above) of whatever happens next
+(nothing, a flush, a close, a restart; with any failure injected; at every durable state the
+append, the watermark write, the rotation and the removal of obsolete logs pass through; with
+any subset of not yet durable unlinks and renames undone): reopening succeeds, and
+LoadAllEntries yields exactly the acknowledged history — or, when the batch in flight had
+reached the disk completely, the acknowledged history followed by that whole batch. Never an
+error, never a partial batch, never a pruned height, never a lost entry. -/
 theorem recover_exact (ops : List Op) (c : COp) (img : Disk) (infl : Bool)
     (h : (img, infl) ∈ (Sys.init.run ops).images c) :
     ∃ out, recover img = .ok out ∧
@@ -57,49 +69,74 @@ theorem live_view_exact (ops : List Op) (ha : (Sys.init.run ops).alive = true)
   · simp only [hh, ↓reduceIte]
     exact i.view h (by omega)
 
-/-- A restart never fails: whatever the history, `NewTendermintWALStore` on the directory it left
-returns a store. -/
-theorem reopen_never_fails (ops : List Op) : ((Sys.init.run ops).step .reopen).2 ≠ .openFailed := by
-  obtain ⟨s', d', ho, _⟩ := open_inv (inv_run ops).d
-  simp only [Sys.step]
-  split
-  · simp
-  · rw [ho]; simp
-
-/-- **A failed flush is not durable and does not break the log.** Whatever failure is injected
-(the append fails with or without a successful tail repair, `manager.Create` fails, …): if a
-flush reports that the batch is not committed, then nothing of the batch is acknowledged or
-visible, the pending records are kept, every crash image from then on recovers to the history
-acknowledged before — and, unless the tail repair failed as well (the store then refuses new
-writers on purpose: `wal_writer.go` `repairRequired`), the very next flush succeeds. -/
-theorem failed_flush_not_durable (ops : List Op) (ft : Fault)
+/-- **A flush that reports failure is all-or-nothing, and the log stays usable** — for EVERY
+error outcome and every modelled failure. The Go caller sees one `error`; two things can have
+happened and they are told apart here by `committed`:
+* not committed (the append — write or fsync — failed, `manager.Create` failed, the writer is
+  blocked): nothing of the batch is acknowledged, visible or durable, the pending records and the
+  calls since the last flush are kept, no log was unlinked;
+* committed, error reported afterwards (the watermark write, its directory sync, the rotation
+  or an unlink failed): the WHOLE batch is acknowledged, visible and durable, nothing is pending.
+In both cases: the running store shows exactly that history; every crash image from then on
+recovers exactly that history (never a part of the batch); and unless the tail repair failed too
+(`repairRequired`, the store then refuses new writers on purpose until it is restarted, see
+`restart_clears_repair_required`) the very next flush succeeds.
+`_partial`: the failure points listed in the header are not in `Fault`. -/
+theorem failed_flush_all_or_nothing_partial (ops : List Op) (ft : Fault)
     (ha : (Sys.init.run ops).alive = true) (hc : (Sys.init.run ops).st.closed = false)
-    (ho : ((Sys.init.run ops).step (.flush ft)).2 = .errNotCommitted) :
-    ((Sys.init.run ops).step (.flush ft)).1.acked = (Sys.init.run ops).acked ∧
-    ((Sys.init.run ops).step (.flush ft)).1.calls = (Sys.init.run ops).calls ∧
-    ((Sys.init.run ops).step (.flush ft)).1.st.pending = (Sys.init.run ops).st.pending ∧
-    ((Sys.init.run ops).step (.flush ft)).1.st.load = (Sys.init.run ops).st.load ∧
-    ((Sys.init.run ops).step (.flush ft)).1.removed = (Sys.init.run ops).removed ∧
-    (∀ img infl, (img, infl) ∈ ((Sys.init.run ops).step (.flush ft)).1.images .idle →
-      ∃ out, recover img = .ok out ∧ LoadSpec out (Sys.init.run ops).acked) ∧
-    (((Sys.init.run ops).step (.flush ft)).1.st.repairRequired = false →
-      (((Sys.init.run ops).step (.flush ft)).1.step (.flush .none)).2 = .ok) := by
-  have o : (flushLocked (Sys.init.run ops).st (Sys.init.run ops).disk ft).out = .errNotCommitted := by
-    simpa only [Sys.step, ha, Bool.not_true, Bool.false_eq_true, ↓reduceIte] using ho
-  obtain ⟨hi, hpd, hcl, hrm⟩ := flush_not_committed (Sys.init.run ops).st (Sys.init.run ops).disk ft hc o
-  have hstep : ((Sys.init.run ops).step (.flush ft)).1 = (Sys.init.run (ops ++ [.flush ft])) := by
+    (ho : ((Sys.init.run ops).step (.flush ft)).2 = .errNotCommitted ∨
+          ((Sys.init.run ops).step (.flush ft)).2 = .errCommitted) :
+    let sys := Sys.init.run ops
+    let sys' := (sys.step (.flush ft)).1
+    let committed := (sys.step (.flush ft)).2.committed
+    sys'.acked = (if committed = true then sys.acked ++ sys.calls else sys.acked) ∧
+    (committed = true → sys'.st.pending = [] ∧ sys'.calls = []) ∧
+    (committed = false → sys'.st.pending = sys.st.pending ∧ sys'.calls = sys.calls ∧ sys'.removed = sys.removed) ∧
+    LoadSpec sys'.st.load sys'.acked ∧
+    (∀ img infl, (img, infl) ∈ sys'.images .idle → ∃ out, recover img = .ok out ∧ LoadSpec out sys'.acked) ∧
+    (sys'.st.repairRequired = false → (sys'.step (.flush .none)).2 = .ok) := by
+  intro sys sys' committed
+  have ha' : sys.alive = true := ha
+  have hc' : sys.st.closed = false := hc
+  have hstep : sys' = Sys.init.run (ops ++ [.flush ft]) := by
+    show (sys.step (.flush ft)).1 = _
     rw [run_append]; rfl
-  have e2 : ((Sys.init.run ops).step (.flush ft)).1.acked = (Sys.init.run ops).acked := by
-    simp only [Sys.step, ha, Bool.not_true, Bool.false_eq_true, ↓reduceIte, o, Outcome.committed]
-  have e3 : ((Sys.init.run ops).step (.flush ft)).1.calls = (Sys.init.run ops).calls := by
-    simp only [Sys.step, ha, Bool.not_true, Bool.false_eq_true, ↓reduceIte, o, Outcome.committed]
-  have e4 : ((Sys.init.run ops).step (.flush ft)).1.st = (flushLocked (Sys.init.run ops).st (Sys.init.run ops).disk ft).st := by
-    simp only [Sys.step, ha, Bool.not_true, Bool.false_eq_true, ↓reduceIte]
-  have e5 : ((Sys.init.run ops).step (.flush ft)).1.alive = true := by
-    simp only [Sys.step, ha, Bool.not_true, Bool.false_eq_true, ↓reduceIte]
-  have e6 : ((Sys.init.run ops).step (.flush ft)).1.removed = (Sys.init.run ops).removed := by
-    simp only [Sys.step, ha, Bool.not_true, Bool.false_eq_true, ↓reduceIte, hrm, List.append_nil]
-  refine ⟨e2, e3, by rw [e4]; exact hpd, by rw [e4]; unfold Store.load; rw [hi], e6, ?_, ?_⟩
+  have e0 : (sys.step (.flush ft)).2 = (flushLocked sys.st sys.disk ft).out := by
+    simp only [Sys.step, ha', Bool.not_true, Bool.false_eq_true, ↓reduceIte]
+  have e2 : sys'.acked = (if committed = true then sys.acked ++ sys.calls else sys.acked) := by
+    show (sys.step (.flush ft)).1.acked = (if (sys.step (.flush ft)).2.committed = true then _ else _)
+    rw [e0]
+    simp only [Sys.step, ha', Bool.not_true, Bool.false_eq_true, ↓reduceIte]
+  have e3 : sys'.calls = (if committed = true then [] else sys.calls) := by
+    show (sys.step (.flush ft)).1.calls = (if (sys.step (.flush ft)).2.committed = true then _ else _)
+    rw [e0]
+    simp only [Sys.step, ha', Bool.not_true, Bool.false_eq_true, ↓reduceIte]
+  have e4 : sys'.st = (flushLocked sys.st sys.disk ft).st := by
+    show (sys.step (.flush ft)).1.st = _
+    simp only [Sys.step, ha', Bool.not_true, Bool.false_eq_true, ↓reduceIte]
+  have e5 : sys'.alive = true := by
+    show (sys.step (.flush ft)).1.alive = true
+    simp only [Sys.step, ha', Bool.not_true, Bool.false_eq_true, ↓reduceIte]
+  have e6 : sys'.removed = sys.removed ++ (flushLocked sys.st sys.disk ft).removed := by
+    show (sys.step (.flush ft)).1.removed = _
+    simp only [Sys.step, ha', Bool.not_true, Bool.false_eq_true, ↓reduceIte]
+  have hcl : sys'.st.closed = false := by rw [e4, flush_closed_same]; exact hc'
+  refine ⟨e2, ?_, ?_, ?_, ?_, ?_⟩
+  · intro hcm
+    refine ⟨?_, by rw [e3]; simp [hcm]⟩
+    rw [e4]
+    exact flush_committed_pending _ _ _ (by rw [← e0]; exact hcm)
+  · intro hcm
+    have o : (flushLocked sys.st sys.disk ft).out = .errNotCommitted := by
+      rcases ho with h | h
+      · rw [← e0]; exact h
+      · have : committed = true := by show (sys.step (.flush ft)).2.committed = true; rw [h]; rfl
+        rw [this] at hcm; cases hcm
+    obtain ⟨_, hpd, _, hrm⟩ := flush_not_committed sys.st sys.disk ft hc' o
+    exact ⟨by rw [e4]; exact hpd, by rw [e3]; simp [hcm], by rw [e6, hrm]; simp⟩
+  · have := live_view_exact (ops ++ [.flush ft]) (by rw [← hstep]; exact e5) (by rw [← hstep]; exact hcl)
+    rw [← hstep] at this
+    exact this
   · intro img infl hm
     rw [hstep] at hm
     obtain ⟨out, r1, r2⟩ := recover_exact _ .idle img infl hm
@@ -108,12 +145,37 @@ theorem failed_flush_not_durable (ops : List Op) (ft : Fault)
       simp only [Sys.bases, List.mem_singleton, Prod.mk.injEq] at hb
       exact hb.2
     subst hfl
-    rw [← hstep, e2] at r2
+    rw [← hstep] at r2
     exact ⟨out, r1, by simpa using r2⟩
   · intro hrr
-    generalize ((Sys.init.run ops).step (.flush ft)).1 = sys' at *
+    show (sys'.step (.flush .none)).2 = .ok
     simp only [Sys.step, e5, Bool.not_true, Bool.false_eq_true, ↓reduceIte]
-    exact flush_none_ok _ _ (by rw [e4]; exact hcl) hrr
+    exact flush_none_ok _ _ hcl hrr
+
+/-- **A restart clears a blocked writer.** Whatever the history (in particular after a failed
+tail repair has set `repairRequired`), once the process has died and `NewTendermintWALStore` has run
+again the store is open, not blocked, and a flush succeeds. -/
+theorem restart_clears_repair_required (ops : List Op) (mask : List Bool) (alt : Nat) :
+    let sys := Sys.init.run (ops ++ [.crash .idle 0 mask alt, .reopen])
+    sys.alive = true ∧ sys.st.closed = false ∧ sys.st.repairRequired = false ∧
+      (sys.step (.flush .none)).2 = .ok := by
+  intro sys
+  have hrun : sys = (((Sys.init.run ops).step (.crash .idle 0 mask alt)).1.step .reopen).1 := by
+    show Sys.init.run _ = _
+    rw [run_append]; rfl
+  have icr := (inv_run ops).step (.crash .idle 0 mask alt)
+  generalize hc : ((Sys.init.run ops).step (.crash .idle 0 mask alt)).1 = c at *
+  have hdead : c.alive = false := by
+    rw [← hc]
+    simp [Sys.step, Sys.bases]
+  obtain ⟨s', d', ho, _, _, _⟩ := open_inv icr.d
+  obtain ⟨f1, f2, _⟩ := openStore_fresh _ _ _ ho
+  have hre : (c.step .reopen).1 = { c with alive := true, st := s', disk := d', calls := [] } := by
+    simp only [Sys.step, hdead, Bool.false_and, Bool.false_eq_true, ↓reduceIte, ho]
+  rw [hrun, hre]
+  refine ⟨rfl, f1, f2, ?_⟩
+  simp only [Sys.step, Bool.not_true, Bool.false_eq_true, ↓reduceIte]
+  exact flush_none_ok _ _ f1 f2
 
 /-- **The cleanup never removes a log that is still needed.** Every log file the store has
 unlinked, at any point of any history, holds only records of heights that the acknowledged
@@ -122,56 +184,86 @@ theorem gc_safe (ops : List Op) (F : LogFile) (hF : F ∈ (Sys.init.run ops).rem
     (r : Rec) (hr : r ∈ recsOfFile F) : r.height ≤ maxPrune (Sys.init.run ops).acked :=
   (inv_run ops).rem F hF r hr
 
-/-- The mechanism behind `gc_safe`, at the level of the reference counts: whenever the index
-invariants hold, a log below the bound computed by `cleanupObsoleteWALs` (the smallest referenced
-log number) contains no record above the prune watermark — a log with an entry of an unpruned
-height is referenced by that height. -/
-theorem gc_keeps_referenced_logs (s : Store) (ps : List (Nat × Rec)) (w : s.idx.RWF) (c : Covers s.idx ps)
-    (n : Nat) (hn : n < s.minLive) (r : Rec) (hr : (n, r) ∈ ps) : r.height ≤ s.idx.pruned :=
-  dead_is_low s ps w c n hn r hr
+/-- … and the reason, on every reachable state of a running store: a log numbered below the bound
+`cleanupObsoleteWALs` computes (`minLive`: the next log number, lowered to the smallest log some
+live height references) holds no record above the prune watermark — a log that holds an entry of
+an unpruned height is referenced by that height (exact reference counts). -/
+theorem gc_bound_spares_live_logs (ops : List Op) (ha : (Sys.init.run ops).alive = true)
+    (hc : (Sys.init.run ops).st.closed = false) (F : LogFile) (hF : F ∈ (Sys.init.run ops).disk.files)
+    (hn : F.num < (Sys.init.run ops).st.minLive) (r : Rec) (hr : r ∈ recsOfFile F) :
+    r.height ≤ (Sys.init.run ops).st.idx.pruned := by
+  have i := (inv_run ops).s ha hc
+  exact dead_is_low _ _ i.rwf i.cov F.num hn r (mem_pairsOf hF hr)
 
-/-- **Pruning is monotone.** The acknowledged history only grows along any continuation, hence
-its highest prune never decreases: a height that `recover_exact` excludes now stays excluded after
-whatever operations, failures, crashes and restarts follow. -/
-theorem prune_monotone (ops more : List Op) :
-    (∃ t, (Sys.init.run (ops ++ more)).acked = (Sys.init.run ops).acked ++ t) ∧
-    maxPrune (Sys.init.run ops).acked ≤ maxPrune (Sys.init.run (ops ++ more)).acked := by
+/-- **The store's prune watermark never goes back** — across any continuation of any history,
+crashes and restarts included: `prunedUpToHeight` of the running store after `ops ++ more` is at
+least what it was after `ops` (it equals the highest acknowledged prune, and acknowledged calls are
+never forgotten). With `recover_exact`/`live_view_exact`: a pruned height stays dead. -/
+theorem watermark_never_decreases (ops more : List Op)
+    (ha : (Sys.init.run ops).alive = true) (hc : (Sys.init.run ops).st.closed = false)
+    (ha' : (Sys.init.run (ops ++ more)).alive = true) (hc' : (Sys.init.run (ops ++ more)).st.closed = false) :
+    (Sys.init.run ops).st.idx.pruned ≤ (Sys.init.run (ops ++ more)).st.idx.pruned := by
+  rw [((inv_run ops).s ha hc).pruned, ((inv_run (ops ++ more)).s ha' hc').pruned]
   obtain ⟨t, ht⟩ := run_acked_prefix (Sys.init.run ops) more
-  rw [run_append]
-  refine ⟨⟨t, ht⟩, ?_⟩
-  rw [ht, maxPrune_append]; omega
+  rw [run_append, ht, maxPrune_append]; omega
 
-/-- `LoadSpec` determines the result: two lists that satisfy it for the same history are equal. -/
+/-- `LoadSpec` determines the result: two lists that satisfy it for the same history are equal
+(so the conclusions above are not satisfiable by anything but the intended list). -/
 theorem loadSpec_unique (o₁ o₂ : List (Nat × List Nat)) (A : List Rec) (h₁ : LoadSpec o₁ A) (h₂ : LoadSpec o₂ A) :
     o₁ = o₂ :=
   loadSpec_unique' o₁ o₂ A h₁ h₂
 
-/-- Replay of records (`updateIndexesFromCommittedRecords`, `applyEncodedRecord`) in closed form:
-whatever log the records come from, the watermark becomes the highest prune seen, every height at
-or below it is empty, every height above it gains exactly its entries, in order. -/
-theorem replay_closed_form (x : Idx) (f : Nat) (rs : List Rec) (w : x.EWF) :
-    (x.applyRecs f rs).pruned = max x.pruned (maxPrune rs) ∧
-    ∀ h, (x.applyRecs f rs).view h =
-      if h ≤ max x.pruned (maxPrune rs) then [] else x.view h ++ entriesOf h rs :=
-  applyRecs_closed x f rs w
+/-! ### Height 0 (DESIGN §7 L8)
 
-/-- Height 0 is never stored (DESIGN §7 L8): `SetWALEntry` of a height-0 entry on an open store
-returns nil and buffers nothing, because `0 ≤ prunedUpToHeight` always holds; and no result that
-satisfies `LoadSpec` has a height 0. Not a violation of C14 as stated with juno's own encoding of
-"pruned"; unreachable in juno's consensus, whose first height is 1. -/
-theorem height_zero_never_stored (s : Store) (hc : s.closed = false) (e : Nat) :
-    s.setEntry 0 e = (s, .ok) ∧
-    ∀ out A, LoadSpec out A → AMap.get? out 0 = none := by
-  refine ⟨by unfold Store.setEntry; simp [hc], ?_⟩
-  intro out A hs
-  have := hs.exact 0
-  simp only [Nat.zero_le, ↓reduceIte] at this
-  cases hg : AMap.get? out 0 with
-  | none => rfl
-  | some v =>
-    rw [hg] at this
-    simp only [Option.getD_some] at this
-    exact absurd this (hs.nonempty (0, v) (AMap.mem_of_get? _ _ _ hg))
+Full statement, FALSE for juno: `recover_exact` with `LoadSpecIdeal` (a height is pruned iff an
+acknowledged prune call covers it) for all histories. juno encodes "nothing pruned" as watermark 0,
+so an entry of height 0 is dropped by `SetWALEntry` and by replay. -/
+
+/-- `recover_exact` against the ideal notion of "pruned", for histories whose entries all have
+height ≥ 1 — which is every history juno's consensus can produce (its first height is
+`chainHeight + 1`, consensus/consensus.go). -/
+theorem recover_exact_ideal_partial (ops : List Op) (c : COp) (img : Disk) (infl : Bool)
+    (h : (img, infl) ∈ (Sys.init.run ops).images c)
+    (hp : HeightsPositive ((Sys.init.run ops).acked ++ (Sys.init.run ops).calls)) :
+    ∃ out, recover img = .ok out ∧
+      LoadSpecIdeal out (if infl = true then (Sys.init.run ops).acked ++ (Sys.init.run ops).calls
+                         else (Sys.init.run ops).acked) := by
+  obtain ⟨out, r1, r2⟩ := recover_exact ops c img infl h
+  refine ⟨out, r1, r2.ideal ?_⟩
+  split
+  · exact hp
+  · exact fun h' e hm => hp h' e (List.mem_append_left _ hm)
+
+/-- The negation witness: `SetWALEntry` of height 0, `Flush` (returns nil), restart — the entry is
+gone although no prune was ever requested. (Not reachable from juno's consensus.) -/
+theorem height_zero_entry_lost :
+    (Sys.init.run [.reopen, .set 0 7, .flush .none]).acked = [.entry 0 7] ∧
+    ((Sys.init.run [.reopen, .set 0 7, .flush .none]).step (.flush .none)).2 = .ok ∧
+    (recover (Sys.init.run [.reopen, .set 0 7, .flush .none]).disk).toOption = some [] ∧
+    ¬ LoadSpecIdeal [] [.entry 0 7] := by
+  refine ⟨by decide, by decide, by decide, ?_⟩
+  intro h
+  have := h.exact 0
+  simp [prunedIdeal, entriesOf, AMap.get?] at this
+
+/-! ### Aliasing (record.go `setEntry`)
+
+Full statement, FALSE for juno before proposed-fixes/C14-setentry-deep-copy.diff: `recover_exact`
+also when the caller modifies, between `SetWALEntry` and `Flush`, the value an entry points to. -/
+
+/-- The negation witness (model of the code before the fix, `aliasFixed = false`): the caller
+hands over an entry with payload 10, writes payload 11 through the pointer it still holds, then
+flushes: payload 11 is what a restart finds, for an acknowledged history that only ever contained
+payload 10. `recover_exact` is the `_partial` side: it holds for callers that do not do this. -/
+theorem aliasing_breaks_exactness_before_fix :
+    let s0 := (Sys.init.run [.reopen, .set 1 10])
+    let s1 := { s0 with st := s0.st.poke 0 11 }
+    (s1.step (.flush .none)).2 = .ok ∧ (s1.step (.flush .none)).1.acked = [.entry 1 10] ∧
+    (recover (s1.step (.flush .none)).1.disk).toOption = some [(1, [11])] ∧ ¬ LoadSpec [(1, [11])] [.entry 1 10] := by
+  refine ⟨by decide, by decide, by decide, ?_⟩
+  intro h
+  have := h.exact 1
+  simp [maxPrune, entriesOf, AMap.get?] at this
 
 /-! ### The record payload codec (`codec.go`, `record.go`), byte level -/
 
@@ -186,13 +278,14 @@ theorem codec_canonical (bs : List UInt8) (p : Codec.Payload) (h : Codec.decode 
     Codec.encode p = bs ∧ p.WF :=
   Codec.decode_canonical bs p h
 
-/-- Under the framing hypothesis — every payload the log reader hands over is one that was
-written (Pebble's chunk checksum; tested exhaustively on small records, not proved) — the decoder
-never yields a record that was not written. -/
-theorem codec_no_foreign_record (written : List Codec.Payload) (hw : ∀ q ∈ written, q.WF)
-    (read : List (List UInt8)) (framing : ∀ b ∈ read, ∃ q ∈ written, b = Codec.encode q) :
-    ∀ b ∈ read, ∀ p, Codec.decode b = some p → p ∈ written :=
-  Codec.no_foreign_record written hw read framing
+/-- **Codec ∘ log model.** The log model replays abstract records `Rec` (an entry = its height and
+an opaque id). They are the image, under `toRec` (height = `GetHeight()` of the decoded entry, id =
+any naming of payloads), of what the byte-level decoder returns for what the encoder wrote: decoding
+a written batch record by record yields exactly the written records, in order. With an injective
+naming, equal ids in `recover_exact` therefore mean equal entries, field by field. -/
+theorem codec_model_composition (name : Codec.Payload → Nat) (ps : List Codec.Payload) (hw : ∀ p ∈ ps, p.WF) :
+    (ps.map Codec.encode).filterMap (fun b => (Codec.decode b).map (toRec name)) = ps.map (toRec name) :=
+  decode_batch name ps hw
 
 example : Codec.decode (Codec.encode (.timeout 2 7 3)) = some (.timeout 2 7 3) := by decide
 example : Codec.decode [1, 1, 7, 0, 0, 0, 0, 0, 0] = none := by decide          -- truncated
@@ -207,49 +300,62 @@ def demo : List Op :=
    .set 3 14]
 
 -- the flush in flight has 5 durable states here; at the last one the batch is on disk
-example : ((Sys.init.run demo).images (.flush .none)).length = 10 := by decide
+example : ((Sys.init.run demo).bases (.flush .none)).length = 5 := by decide
 example : (Sys.init.run demo).acked = [.entry 1 10, .entry 2 11, .prune 1, .entry 2 12, .entry 3 13] := by decide
 example : (Sys.init.run demo).st.load = [(2, [11, 12]), (3, [13])] := by decide
 example : (((Sys.init.run demo).bases (.flush .none)).map (fun p => (recover p.1).toOption)) =
     [some [(2, [11, 12]), (3, [13])], some [(2, [11, 12]), (3, [13])], some [(2, [11, 12]), (3, [13])],
      some [(2, [11, 12]), (3, [13])], some [(2, [11, 12]), (3, [13, 14])]] := by decide
--- hypotheses of `failed_flush_not_durable` are satisfiable, with and without a successful repair
+-- both error outcomes occur (hypothesis `ho` of `failed_flush_all_or_nothing_partial`), with and
+-- without a blocked writer afterwards
 example : (Sys.init.run demo).alive = true ∧ (Sys.init.run demo).st.closed = false ∧
     ((Sys.init.run demo).step (.flush .append)).2 = .errNotCommitted ∧
     ((Sys.init.run demo).step (.flush .append)).1.st.repairRequired = false ∧
     ((Sys.init.run demo).step (.flush .appendNoRepair)).2 = .errNotCommitted ∧
     ((Sys.init.run demo).step (.flush .appendNoRepair)).1.st.repairRequired = true := by decide
+example : ((Sys.init.run [.reopen, .set 1 10]).step (.flush .create)).2 = .errNotCommitted := by decide
+-- Pebble's reader skips a batch whose sequence number does not increase: the model represents it
+example : ({ num := 1, batches := [[.entry 1 10], [.entry 1 11]], seqs := [1, 1] } : LogFile).visible = [[.entry 1 10]] := by
+  decide
 -- a directory in which an unlinked log came back: the watermark keeps its entries dead
-example : (recover { files := [{ num := 1, batches := [[.entry 1 10, .prune 1]] }, { num := 3, batches := [[.entry 2 11]] }],
+example : (recover { files := [{ num := 1, batches := [[.entry 1 10, .prune 1]], seqs := [1] },
+                               { num := 3, batches := [[.entry 2 11]], seqs := [1] }],
                      wm := some 1 }).toOption = some [(2, [11])] := by decide
-example : (recover { files := [{ num := 1, batches := [[.entry 1 10]] }, { num := 3, batches := [[.entry 2 11]] }],
+example : (recover { files := [{ num := 1, batches := [[.entry 1 10]], seqs := [1] },
+                               { num := 3, batches := [[.entry 2 11]], seqs := [1] }],
                      wm := some 1 }).toOption = some [(2, [11])] := by decide
 
--- the failures inside the cleanup, on a store whose next prune flush has reached the interval:
--- log 1 and log 2 are both obsolete (nothing references them), the watermark becomes 5
-def demoStore : Store := { writer := some 2, nextWAL := 3, known := [1, 2], idx := { pruned := 5 }, sinceCleanup := 256 }
-def demoDisk : Disk :=
-  { files := [{ num := 1, batches := [[.entry 3 1, .prune 3]] }, { num := 2, batches := [[.prune 5]] }], wm := some 3 }
-example : (cleanup demoStore demoDisk 2 .none).out = .ok ∧
-    (cleanup demoStore demoDisk 2 .none).disk.files = [] ∧
-    (cleanup demoStore demoDisk 2 .none).disk.wm = some 5 ∧ (cleanup demoStore demoDisk 2 .none).st.sinceCleanup = 0 := by decide
--- the second unlink fails: log 1 is gone, log 2 stays and is forgotten by the manager, the counter is kept
-example : (cleanup demoStore demoDisk 2 (.unlink 1)).out = .errCommitted ∧
-    (cleanup demoStore demoDisk 2 (.unlink 1)).disk.files.map (·.num) = [2] ∧
-    (cleanup demoStore demoDisk 2 (.unlink 1)).disk.zombies.map (·.num) = [1] ∧
-    (cleanup demoStore demoDisk 2 (.unlink 1)).st.known = [] ∧
-    (cleanup demoStore demoDisk 2 (.unlink 1)).st.sinceCleanup = 256 := by decide
--- the directory sync after the rename fails: the new watermark is there but the old one may come back
-example : (cleanup demoStore demoDisk 2 .wmSync).out = .errCommitted ∧
-    (cleanup demoStore demoDisk 2 .wmSync).disk.wm = some 5 ∧
-    (cleanup demoStore demoDisk 2 .wmSync).disk.wmAlt = some (some 3) ∧
-    ((cleanup demoStore demoDisk 2 .wmSync).disk.resurrect [] true).wm = some 3 ∧
-    (cleanup demoStore demoDisk 2 .wmSync).st.writer = some 2 := by decide
--- the rotation fails: everything else still happens, the flush reports the error
-example : (cleanup demoStore demoDisk 2 .rotate).out = .errCommitted ∧
-    (cleanup demoStore demoDisk 2 .rotate).disk.files = [] ∧ (cleanup demoStore demoDisk 2 .rotate).st.writer = none := by decide
--- manager.Create fails: not committed, nothing changed
-example : ((Sys.init.run [.reopen, .set 1 10]).step (.flush .create)).2 = .errNotCommitted ∧
-    ((Sys.init.run [.reopen, .set 1 10]).step (.flush .create)).1.disk = (Sys.init.run [.reopen, .set 1 10]).disk := by decide
+/-! reachable states of the cleanup (no hand-made stores): three logs — one from an earlier process
+lifetime, one left by a failed append, the current one — then 255 flushed prunes and a 256th pending -/
+def pruneRun (n : Nat) : List Op :=
+  (List.range n).flatMap (fun i => [.set (i + 1) i, .set (i + 2) (1000 + i), .del (i + 1), .flush .none])
+def cleanupHistory : List Op :=
+  [.reopen, .set 1 900, .flush .none, .close .none, .reopen, .set 1 901, .flush .append, .flush .none] ++
+    pruneRun 255 ++ [.set 256 1, .del 256]
+
+set_option maxRecDepth 100000
+
+-- the flush that runs the cleanup passes through 12 durable states; at the last one all three logs
+-- are unlinked but the unlinks are not durable: 8 subsets may come back (21 images in all)
+example : (((Sys.init.run cleanupHistory).bases (.flush .none)).map
+    (fun b => (b.1.files.map (·.num), b.1.zombies.map (·.num), b.1.wm))).getLast? = some ([], [1, 2, 3], some 256) := by
+  decide
+example : ((Sys.init.run cleanupHistory).images (.flush .none)).length = 21 := by decide
+-- every one of them reopens to the acknowledged history (height 256 still alive) or, once the batch
+-- in flight (an entry of 256 and the prune of 256) is on disk, to the empty log — although logs that
+-- come back hold entries of pruned heights
+example : (((Sys.init.run cleanupHistory).images (.flush .none)).map (fun p => ((recover p.1).toOption, p.2))).eraseDups =
+    [(some [(256, [1254])], false), (some [], true)] := by decide
+example : ((Sys.init.run (cleanupHistory ++ [.flush .none])).removed.map (·.num)) = [1, 2, 3] := by decide
+-- the failures inside the cleanup, on this reachable state
+example : ((Sys.init.run cleanupHistory).step (.flush (.unlink 1))).2 = .errCommitted ∧
+    ((Sys.init.run cleanupHistory).step (.flush (.unlink 1))).1.disk.files.map (·.num) = [2, 3] ∧
+    ((Sys.init.run cleanupHistory).step (.flush (.unlink 1))).1.st.known = [] ∧
+    ((Sys.init.run cleanupHistory).step (.flush .rotate)).2 = .errCommitted ∧
+    ((Sys.init.run cleanupHistory).step (.flush .watermark)).2 = .errCommitted ∧
+    ((Sys.init.run cleanupHistory).step (.flush .wmSync)).2 = .errCommitted := by decide
+-- two directory-sync failures in a row: three watermark values may be on disk after a crash
+example : (((Sys.init.run (cleanupHistory ++ [.flush .wmSync, .del 257, .flush .wmSync])).images .idle).map (fun p => p.1.wm)) =
+    [some 257, some 256, none] := by decide
 
 end Juno.C14.Props
